@@ -1715,6 +1715,18 @@ fn families_of(prop: &str, tier: Tier) -> Vec<Cfg> {
             cz.max_conns = 2;
             cz.max_reqs = 2;
             cz.dev = 2;
+            // a publish kept for replay that no longer fits the Maximum Packet Size of a later connection: every call
+            // reports it and returns (the application has to find a broker that allows it)
+            let mut cp = Cfg::base("C16-retained-publish-exceeds-a-later-maximum-packet-size");
+            cp.props = vec!["C16"];
+            cp.ops = vec![OpK::Pub1, OpK::Poll, OpK::Recv, OpK::Drive, OpK::DropConn];
+            cp.io = IoMenu::benign();
+            cp.broker.max_packet = vec![None, Some(20)];
+            cp.payload_sizes = vec![2, 40];
+            cp.max_ops = if q { 5 } else { 6 };
+            cp.max_conns = 3;
+            cp.max_reqs = 2;
+            cp.dev = 0;
             // buffering transport: every interrupted flush must be resumed
             let mut d = Cfg::base("C16-buffering-transport");
             d.props = vec!["C16"];
@@ -1805,7 +1817,7 @@ fn families_of(prop: &str, tier: Tier) -> Vec<Cfg> {
             sk.max_conns = 2;
             sk.max_reqs = 1;
             sk.dev = 0;
-            vec![a, b, c, cz, d, e, f, g, h, i, j, sk, rl, ex, ap]
+            vec![a, b, c, cz, cp, d, e, f, g, h, i, j, sk, rl, ex, ap]
         }
         "C18" => {
             let mut a = Cfg::base("C18-status-after-every-step");
